@@ -92,6 +92,11 @@ def apply_mod(meta_molecule, modifications):
             LOGGER.warning("The resname of your target residue is not recognised a protein resname. "
                            "Will not attempt to modify.")
             continue
+        # checks that the residue is the one the modification was requested for
+        if 'resname' in target and target['resname'] != target_residue['resname']:
+            LOGGER.warning("The residue with resid {} is {} and not {}. Will not attempt to modify.",
+                           target_resid, target_residue['resname'], target['resname'])
+            continue
 
         mod_atoms = {}
         for mod_atom in molecule.force_field.modifications[desired_mod].atoms:
